@@ -4,6 +4,7 @@ import (
 	"fmt"
 	"math/rand"
 	"strings"
+	"sync"
 	"time"
 
 	"github.com/bluenviron/gomavlib/v3"
@@ -379,6 +380,35 @@ func genC16(o *hx.Out, tier string) {
 			name, ver = ds[j.c.d].name, int(ds[j.c.d].d.Version)
 		}
 		o.Add("heartbeat config", j.res, "hb", b2s(j.c.disable), name, u(uint64(j.systype)), u(uint64(j.ap)), u(uint64(ver)))
+	}
+
+	// (1b) two nodes alive at the same time on the SAME dialect object, with different settings:
+	// each sends its own heartbeats (what a node puts into its heartbeat is its own)
+	for rep := 0; rep < 2; rep++ {
+		cd := &ds[1+rep]
+		type side struct {
+			systype, ap int
+			res         string
+		}
+		sides := []*side{{systype: 6, ap: 8}, {systype: 2, ap: 3}, {systype: 0, ap: 12}}
+		var wg sync.WaitGroup
+		for _, sd := range sides {
+			sd := sd
+			wg.Add(1)
+			go func() {
+				defer wg.Done()
+				for attempt := 0; attempt < 3; attempt++ {
+					sd.res = heartbeatRun(cd, false, sd.systype, sd.ap, 1, 100*time.Millisecond, 5.5)
+					if !strings.Contains(sd.res, "TIMING") {
+						break
+					}
+				}
+			}()
+		}
+		wg.Wait()
+		for _, sd := range sides {
+			o.Add("heartbeat config, several nodes on one dialect object", sd.res, "hb", "0", cd.name, u(uint64(sd.systype)), u(uint64(sd.ap)), u(uint64(cd.d.Version)))
+		}
 	}
 
 	// (2) stream requests: arrival histories
